@@ -5,7 +5,9 @@
   rename   : every local variable of every function alpha-renamed (x -> x_v); a check may answer exit 2 (a local name it anchors on
              vanished) but never exit 1
   swapif   : every two-armed `if c: A else: B` (not an elif chain) rewritten as `if not c: B else: A`; same expectation
-usage: tools/falsealarm.py [reformat|shift|rename|swapif]"""
+  commute  : operands of `==`, `!=`, `<`/`>` (mirrored), `*`, `^`, `&`, `|` swapped everywhere (behaviour-preserving for numbers, arrays,
+             sets and list repetition); a check may answer exit 2 but never exit 1
+usage: tools/falsealarm.py [reformat|shift|rename|swapif|commute]"""
 import ast, os, shutil, subprocess, sys, tempfile
 mode = sys.argv[1] if len(sys.argv) > 1 else "reformat"
 
@@ -68,6 +70,22 @@ def swap_ifs(src):
             n.body, n.orelse = n.orelse, n.body
     ast.fix_missing_locations(tree)
     return ast.unparse(tree) + "\n"
+def commute(src):
+    tree = ast.parse(src)
+    mirror = {ast.Lt: ast.Gt, ast.Gt: ast.Lt, ast.LtE: ast.GtE, ast.GtE: ast.LtE, ast.Eq: ast.Eq, ast.NotEq: ast.NotEq}
+    for n in ast.walk(tree):
+        if isinstance(n, ast.Compare) and len(n.ops) == 1 and type(n.ops[0]) in mirror:
+            n.left, n.comparators[0] = n.comparators[0], n.left
+            n.ops[0] = mirror[type(n.ops[0])]()
+        elif isinstance(n, ast.BinOp) and isinstance(n.op, (ast.Mult, ast.BitXor, ast.BitAnd, ast.BitOr)):
+            # string formatting / sequence repetition with a non-commutative meaning is left alone
+            if isinstance(n.left, (ast.Constant, ast.JoinedStr)) and isinstance(getattr(n.left, "value", None), str):
+                continue
+            n.left, n.right = n.right, n.left
+    ast.fix_missing_locations(tree)
+    return ast.unparse(tree) + "\n"
+
+
 tmp = tempfile.mkdtemp(prefix="gqsa_fa_")
 try:
     shutil.copytree("/repo/graphiq", os.path.join(tmp, "graphiq"), ignore=shutil.ignore_patterns("__pycache__"))
@@ -83,6 +101,8 @@ try:
                 new = rename_locals(src)
             elif mode == "swapif":
                 new = swap_ifs(src)
+            elif mode == "commute":
+                new = commute(src)
             else:
                 out = ["# moved\n"] * 3 + ["\n"] * 7
                 for line in src.splitlines(keepends=True):
